@@ -147,8 +147,7 @@ Definition init_topic (k : tkind) (f : fault) (s : store) (n : nat) (u1 u2 : N) 
 Inductive lframe :=
 | LCtrl (code : Z) (seq : option Z)      (* {ctrl}; params.seq on the 202 of an accepted publish *)
 | LData (seq : Z) (from content : N)
-| LDesc (seq : Z)                        (* {meta desc}: desc.seq *)
-| LPanic.                                (* the topic goroutine panicked: the process is gone *)
+| LDesc (seq : Z).                       (* {meta desc}: desc.seq *)
 Definition lout := list (N * lframe).
 
 Inductive lkind := LP2P | LSys.
@@ -158,10 +157,13 @@ Record lh := mkLH { lh_st : store; lh_ca : lcache; lh_n : nat; lh_out : lout }.
 (* evictUser: the user's sessions are detached *)
 Definition l_evict (c : lcache) (u : N) : lcache := l_set_sess (filter (fun e => negb (N.eqb (snd e) u))) c.
 
-(* subscriptionReply + thisUserSub with no requested mode.  Result None = panic
-   (t.accessFor evaluates getDefaultAccess(TopicCatSys), which panics). *)
-Definition lsub (k : lkind) (root : bool) (f : fault) (s : store) (c : lcache) (n : nat) (sid u : N) (newsub0 : bool)
-  : option lh :=
+(* t.accessFor(level): P2P topics have no default access (sessions are LevelAuth);
+   'sys': ModeWrite for LevelAuth, getDefaultAccess(TopicCatSys) = ModeCSys for LevelRoot *)
+Definition access_for (k : lkind) (root : bool) : N :=
+  match k with LP2P => 0%N | LSys => if root then ModeCSys else mW end.
+
+(* subscriptionReply + thisUserSub with no requested mode *)
+Definition lsub (k : lkind) (root : bool) (f : fault) (s : store) (c : lcache) (n : nat) (sid u : N) (newsub0 : bool) : lh :=
   let reply code := [(sid, LCtrl code None)] in
   (* hasJoined: true unless a changed mode without J was reported *)
   let attach (changed : bool) (w g : N) (c' : lcache) :=
@@ -172,39 +174,38 @@ Definition lsub (k : lkind) (root : bool) (f : fault) (s : store) (c : lcache) (
       (* P2P: the subscription was deleted while the topic stayed loaded *)
       let w := p2p_sane (lp_want p) in
       let g := lp_given p in
-      if negb (is_joiner g) then Some (mkLH s c n (reply 403)) else
+      if negb (is_joiner g) then mkLH s c n (reply 403) else
       let '(ok1, n1) := call f n in                        (* Subs.Create *)
-      if negb ok1 then Some (mkLH s c n1 (reply 500)) else
+      if negb ok1 then mkLH s c n1 (reply 500) else
       let s1 := ad_sub_create s u w g in
       let c1 := l_set_users (aset u (mkLP w g false)) c in
-      if negb (is_joiner w) then Some (mkLH s1 (attach true w g (l_evict c1 u)) n1 (reply 200))
-      else Some (mkLH s1 (attach true w g c1) n1 (reply 200))
+      if negb (is_joiner w) then mkLH s1 (attach true w g (l_evict c1 u)) n1 (reply 200)
+      else mkLH s1 (attach true w g c1) n1 (reply 200)
     else
       let oldw := lp_want p in
       let g := lp_given p in
-      if negb (is_joiner oldw) && (match k with LSys => true | LP2P => false end) then None else
-      (* un-self-ban: modeWant = modeGiven | t.accessFor(LevelAuth) (= 0 for P2P), minus O *)
-      let w := if negb (is_joiner oldw) then N.ldiff g mO else oldw in
+      (* un-self-ban: modeWant = modeGiven | t.accessFor(level), minus O (there is no owner) *)
+      let w := if negb (is_joiner oldw) then N.ldiff (N.lor g (access_for k root)) mO else oldw in
       let need := negb (w =? oldw)%N in
       let '(ok1, n1) := if need then call f n else (true, n) in   (* Subs.Update *)
-      if negb ok1 then Some (mkLH s c n1 (reply 500)) else
+      if negb ok1 then mkLH s c n1 (reply 500) else
       let s1 := if need then ad_subs_update s u (mkUpd (Some w) None None None None) else s in
       let c1 := l_set_users (aset u (mkLP w g false)) c in
       let changed := newsub0 || need in
-      if negb (is_joiner w) then Some (mkLH s1 (attach changed w g (l_evict c1 u)) n1 (reply 200)) else
-      if negb (is_joiner g) then Some (mkLH s1 c1 n1 (reply 403)) else
-      Some (mkLH s1 (attach changed w g c1) n1 (reply 200))
+      if negb (is_joiner w) then mkLH s1 (attach changed w g (l_evict c1 u)) n1 (reply 200) else
+      if negb (is_joiner g) then mkLH s1 c1 n1 (reply 403) else
+      mkLH s1 (attach changed w g c1) n1 (reply 200)
   | None =>
     match k with
     | LP2P =>
       (* not a party: zero perUserData, modeGiven has no J *)
-      Some (mkLH s c n (reply 403))
+      mkLH s c n (reply 403)
     | LSys =>
-      if negb root then Some (mkLH s c n (reply 403)) else
+      if negb root then mkLH s c n (reply 403) else
       let '(ok1, n1) := call f n in                        (* Subs.Create *)
-      if negb ok1 then Some (mkLH s c n1 (reply 500)) else
-      Some (mkLH (ad_sub_create s u ModeCSys ModeCSys)
-                 (attach true ModeCSys ModeCSys (l_set_users (aset u (mkLP ModeCSys ModeCSys false)) c)) n1 (reply 200))
+      if negb ok1 then mkLH s c n1 (reply 500) else
+      mkLH (ad_sub_create s u ModeCSys ModeCSys)
+           (attach true ModeCSys ModeCSys (l_set_users (aset u (mkLP ModeCSys ModeCSys false)) c)) n1 (reply 200)
     end
   end.
 
@@ -286,7 +287,7 @@ Definition loffline_desc (k : lkind) (f : fault) (s : store) (sid other : N) : n
 (* ------------------------------------------------------------------ *)
 (* one request, handled to quiescence                                   *)
 Inductive lop :=
-| LSub (sid : N)
+| LSub (sid : N) (byname : bool)   (* byname: addressed by the p2pAAABBB name instead of usrBBB *)
 | LLeave (sid : N) (unsub : bool)
 | LPub (sid content : N) (noecho : bool)
 | LGetData (sid : N)
@@ -305,8 +306,10 @@ Variable ua ub : N.             (* the two parties of the P2P topic *)
 Definition peer (u : N) : N := if N.eqb u ua then ub else ua.
 Definition is_root (u : N) : bool := existsb (N.eqb u) roots.
 
-Definition lload (f : fault) (s : store) (n : nat) (u : N) : lres :=
-  match k with LP2P => init_p2p f s n u (peer u) | LSys => init_sys f s n end.
+(* [other] = types.ParseUserId(t.xoriginal): the peer when the topic was addressed as usrXXX,
+   the zero uid when it was addressed by its p2p name *)
+Definition lload (f : fault) (s : store) (n : nat) (u other : N) : lres :=
+  match k with LP2P => init_p2p f s n u other | LSys => init_sys f s n end.
 
 (* what a fresh process holds: nothing for a P2P topic; newHub() loads 'sys' *)
 Definition boot (s : store) : option lcache :=
@@ -319,8 +322,6 @@ Definition lstep (f : fault) (x : lstate) (o : lop) : lstate * lout :=
   let s := x_st x in
   let keep o' := (mkLS s (x_ca x) 0, o') in
   let fin (h : lh) := (mkLS (lh_st h) (Some (lh_ca h)) (lh_n h), lh_out h) in
-  let fin_sub (s0 : store) (n0 : nat) (r : option lh) :=
-      match r with Some h => fin h | None => (mkLS s0 None n0, [(0%N, LPanic)]) end in
   match o with
   | LUnload =>
     match k, x_ca x with
@@ -328,16 +329,16 @@ Definition lstep (f : fault) (x : lstate) (o : lop) : lstate * lout :=
     | _, _ => keep []
     end
   | LRestart => (mkLS s (boot s) 0, [])
-  | LSub sid =>
+  | LSub sid byname =>
     let u := sess_uid sm sid in
     let ns c := match alookup u (l_users c) with Some p => lp_deleted p | None => true end in
     match x_ca x with
     | Some c => if lattached c sid then keep [(sid, LCtrl 304 None)]
-                else fin_sub s 0%nat (lsub k (is_root u) f s c 0 sid u (ns c))
+                else fin (lsub k (is_root u) f s c 0 sid u (ns c))
     | None =>
-      match lload f s 0 u with
+      match lload f s 0 u (if byname then 0%N else peer u) with
       | LErr code n1 => (mkLS s None n1, [(sid, LCtrl code None)])
-      | LOk s1 c n1 newsub => fin_sub s1 n1 (lsub k (is_root u) f s1 c n1 sid u (newsub || ns c))
+      | LOk s1 c n1 newsub => fin (lsub k (is_root u) f s1 c n1 sid u (newsub || ns c))
       end
     end
   | LLeave sid unsub =>
